@@ -237,7 +237,14 @@ func solveAll(obls []*Obligation, timeoutS int, all bool, workDir string) {
 			sem2 <- struct{}{}
 			defer func() { <-sem2 }()
 			file := filepath.Join(workDir, smtName(o.Name)+".retry.smt2")
-			r := Solve(o.Script, file, 3*timeoutS, all, false)
+			budget := 3 * timeoutS
+			if data, err := os.ReadFile("/proc/loadavg"); err == nil {
+				var l1 float64
+				if _, err := fmt.Sscanf(string(data), "%f", &l1); err == nil && l1 > 32 {
+					budget = 6 * timeoutS // the machine is heavily oversubscribed right now
+				}
+			}
+			r := Solve(o.Script, file, budget, all, false)
 			r.AllRuns = append(o.Result.AllRuns, r.AllRuns...)
 			if r.Status == "unsat" || r.Status == "sat" {
 				o.Result = r
